@@ -18,6 +18,7 @@ package main
 import (
 	"go/ast"
 	"go/token"
+	"strings"
 )
 
 type FactoryRow struct {
@@ -129,6 +130,25 @@ func factoryRows(fd *ast.FuncDecl) []FactoryRow {
 		}
 		return true
 	})
+	// a function that builds a recipe by composition (its result is an Observable or a pipeable operator and it has no
+	// constructor call of its own: RangeWithStepAndInterval = Pipe(Interval, Take, Map(func…))) hands its function literals to
+	// the operators it composes: they run once per item of every subscription, so a variable of the body they write is state
+	// shared by all subscriptions of the returned value
+	if fd.Type.Results != nil && len(fd.Type.Results.List) == 1 && strings.Contains(exprString(fd.Type.Results.List[0].Type), "Observable") {
+		ast.Inspect(fd.Body, func(n ast.Node) bool {
+			if _, ok := n.(*ast.FuncLit); ok {
+				return false
+			}
+			if c, ok := n.(*ast.CallExpr); ok {
+				for _, a := range c.Args {
+					if fl, ok := a.(*ast.FuncLit); ok {
+						returned = append(returned, fl)
+					}
+				}
+			}
+			return true
+		})
+	}
 	params := map[*ast.Object]bool{}
 	for _, f := range fd.Type.Params.List {
 		for _, n := range f.Names {
